@@ -56,6 +56,8 @@ type Exec struct {
 	modBusy  map[*ssa.Function]bool
 	retPaths int
 	kinds    map[string]int
+	Observe  map[string]string // name -> contract expression evaluated in the entry state (for counterexample replay)
+	obsTerms map[string]string
 	coverPC  [][]string
 }
 
@@ -475,6 +477,16 @@ func (x *Exec) Run() {
 	for _, c := range x.spec.Requires {
 		t := x.evalBool(env, c.E)
 		st.assume(t)
+	}
+	x.obsTerms = map[string]string{}
+	for name, src := range x.Observe {
+		ts, err := lex(src)
+		if err != nil {
+			panic(specErr{"observable " + name + ": " + err.Error()})
+		}
+		ps := &parser{ts: ts}
+		v := env.eval(ps.parseExpr())
+		x.obsTerms[name] = x.scalar(v)
 	}
 	x.coverPC = append(x.coverPC, append([]string(nil), st.pc...))
 	x.work = append(x.work, st)
